@@ -13,6 +13,10 @@ ENV = dict(os.environ)
 ENV.setdefault("CARGO_NET_OFFLINE", "true")
 ENV["CARGO_TERM_COLOR"] = "never"
 
+# quick-tier budget multipliers for monitors whose default quick budget is too slow for
+# an every-change check (gates are still met at these scales)
+QUICK_SCALE = {"C13": 0.35, "C14": 0.5}
+
 QUICK_WATCHDOG_S = 900
 THOROUGH_WATCHDOG_S = 3600
 
@@ -263,6 +267,8 @@ def main(argv):
     if tier not in ("quick", "thorough"):
         log(f"unknown mode {tier}")
         return 3
+    if tier == "quick" and prop in QUICK_SCALE and "--scale" not in extra:
+        extra = extra + ["--scale", str(QUICK_SCALE[prop])]
     report, reason = run_monitor(prop, tier, seed, extra)
     stages.append({"stage": "monitor", "ok": report is not None,
                    "wall_s": round((report or {}).get("monitor_wall_s", 0), 1)})
